@@ -686,7 +686,7 @@ Theorem root_parse_shape ts m :
          head ++ tail = slice_raw ts (mr_end m) ei /\
          forallb (fun t => negb (t_code t)) head = true /\ tail <> [] /\
          root_parse ts (GOk m) =
-         Some (POk (Node K_File (pre ++ (matched ++ map tok_tree head ++ [Node K_File (map tok_tree tail)]) ++ post)))) /\
+         Some (POk (Node K_File (pre ++ (matched ++ map tok_tree head ++ [Node K_Unparsable (map tok_tree tail)]) ++ post)))) /\
     (has_match m = true -> mr_end m = ei ->
        root_parse ts (GOk m) = Some (POk (Node K_File (pre ++ matched ++ post)))).
 Proof.
@@ -710,12 +710,12 @@ Proof.
                     else if negb (is_empty unmatched) then
                       let idx := match position t_code unmatched with Some i => i | None => N.of_nat (length unmatched) end in
                       option_map (fun f => matched ++ map tok_tree (firstn (N.to_nat idx) unmatched) ++ [f])
-                                 (node_of K_File (map tok_tree (skipn (N.to_nat idx) unmatched)))
+                                 (node_of K_Unparsable (map tok_tree (skipn (N.to_nat idx) unmatched)))
                     else Some matched) with
              | None => None
              | Some c => option_map POk (node_of K_File (pre ++ c ++ post))
              end)).
-  { unfold root_parse. fold n si ei.
+  { unfold root_parse, root_parse_gen. fold n si ei.
     destruct (N.eqb_spec si ei); [contradiction|].
     rewrite Happ. rewrite !slice_some by (fold n; lia). reflexivity. }
   repeat split.
@@ -750,6 +750,58 @@ Proof.
     rewrite map_length, slice_raw_length in Hnil by lia. cbn in Hnil. lia.
 Qed.
 
+Lemma outside_l_app a b : outside_l (a ++ b) = outside_l a ++ outside_l b.
+Proof. unfold outside_l. apply flat_map_app. Qed.
+
+Lemma outside_tok_trees l : outside_l (map tok_tree l) = map t_id l.
+Proof. induction l as [|t l IH]; [reflexivity|]. cbn. now rewrite <- IH. Qed.
+
+Lemma outside_unparsable ch : outside_l [Node K_Unparsable ch] = [].
+Proof. reflexivity. Qed.
+
+(** Second sentence of C02 for [root_parse]: the tokens that are outside every unparsable node of the
+    result are the non-code around the code span, what the grammar matched (minus the unparsable
+    sections of the match itself) and the non-code [head] between the match and the first code token
+    it left over - all the rest of the code span ([tail]: from the first unmatched code token to the
+    last code token; the whole span when nothing matched) is inside an unparsable node. *)
+Theorem root_parse_unmatched_flagged ts m :
+  ts <> [] -> wf_root ts m = true -> start_idx ts <> end_idx ts ->
+  let n := N.of_nat (length ts) in
+  let si := start_idx ts in
+  let ei := end_idx ts in
+  exists matched ch head tail,
+    apply ts m = Some matched /\
+    root_parse ts (GOk m) = Some (POk (Node K_File ch)) /\
+    head ++ tail = slice_raw ts (if has_match m then mr_end m else si) ei /\
+    forallb (fun t => negb (t_code t)) head = true /\
+    (tail = [] -> has_match m = true /\ mr_end m = ei) /\
+    outside_l ch = map t_id (slice_raw ts 0 si) ++ (if has_match m then outside_l matched else [])
+                   ++ map t_id head ++ map t_id (slice_raw ts ei n).
+Proof.
+  intros Hne Hwf Hsi n si ei.
+  destruct (root_parse_shape ts m Hne Hwf Hsi) as (matched & Happ & Hleaves & Hno & Hleft & Hfull).
+  fold n si ei in Hno, Hleft, Hfull.
+  assert (He : mr_end m <= ei).
+  { unfold wf_root in Hwf. repeat rewrite andb_true_iff in Hwf. destruct Hwf as [[_ _] He]. now apply N.leb_le in He. }
+  destruct (idx_bounds ts) as [Hse Hen]. fold si ei n in Hse, Hen.
+  exists matched.
+  destruct (has_match m) eqn:Ehm.
+  - destruct (N.eq_dec (mr_end m) ei) as [Hee|Hlt].
+    + eexists. exists [], []. split; [exact Happ|]. split; [apply Hfull; auto|].
+      split; [now rewrite Hee, slice_raw_same|]. split; [reflexivity|]. split; [auto|].
+      rewrite !outside_l_app, !outside_tok_trees. reflexivity.
+    + destruct (Hleft eq_refl ltac:(lia)) as (head & tail & Hht & Hnc & Htail & Hrp).
+      eexists. exists head, tail. split; [exact Happ|]. split; [exact Hrp|].
+      split; [exact Hht|]. split; [exact Hnc|]. split; [intros ->; contradiction|].
+      rewrite !outside_l_app, !outside_tok_trees, outside_unparsable, app_nil_r.
+      now rewrite <- !app_assoc.
+  - eexists. exists [], (slice_raw ts si ei). split; [exact Happ|]. split; [apply Hno; reflexivity|].
+    split; [reflexivity|]. split; [reflexivity|]. split.
+    + intros Heq. assert (Hl : length (slice_raw ts si ei) = N.to_nat (ei - si)) by (apply slice_raw_length; lia).
+      rewrite Heq in Hl. cbn in Hl. lia.
+    + rewrite !outside_l_app, !outside_tok_trees, outside_unparsable. reflexivity.
+Qed.
+
 Lemma ids_all ts : ids ts 0 (N.of_nat (length ts)) = map t_id ts.
 Proof. unfold ids. now rewrite slice_raw_all. Qed.
 
@@ -761,7 +813,7 @@ Theorem root_parse_covers ts m :
 Proof.
   intros Hne Hwf.
   destruct (N.eq_dec (start_idx ts) (end_idx ts)) as [Heq|Hsi].
-  - exists (map tok_tree ts). unfold root_parse. rewrite Heq, N.eqb_refl.
+  - exists (map tok_tree ts). unfold root_parse, root_parse_gen. rewrite Heq, N.eqb_refl.
     rewrite node_of_some by (now apply map_nonempty). split; [reflexivity | apply leaves_tok_trees].
   - destruct (root_parse_shape ts m Hne Hwf Hsi) as (matched & Happ & Hleaves & Hno & Hleft & Hfull).
     destruct (idx_bounds ts) as [Hse Hen].
@@ -796,7 +848,7 @@ Theorem root_parse_err ts :
   (start_idx ts = end_idx ts /\ root_parse ts GErr = Some (POk (Node K_File (map tok_tree ts)))
    /\ leaves_l (map tok_tree ts) = map t_id ts).
 Proof.
-  intros Hne. unfold root_parse. destruct (N.eqb_spec (start_idx ts) (end_idx ts)) as [Heq|Hsi].
+  intros Hne. unfold root_parse, root_parse_gen. destruct (N.eqb_spec (start_idx ts) (end_idx ts)) as [Heq|Hsi].
   - right. rewrite node_of_some by (now apply map_nonempty). repeat split; auto. apply leaves_tok_trees.
   - left. split; [exact Hsi | reflexivity].
 Qed.
@@ -830,9 +882,26 @@ Example ex_root_parse :
     [Tok 10 5;
      Node 40 [Tok 11 51; Meta 100 2; Tok 12 5; Node 41 [Tok 13 50]; Meta 101 4];
      Tok 14 5;
-     Node K_File [Tok 15 9];
+     Node K_Unparsable [Tok 15 9];
      Tok 16 6; Tok 17 3])).
 Proof. vm_compute. reflexivity. Qed.
+
+(** before the repair ([root_parse_legacy]: the leftover goes into a second File node) the equation of
+    [root_parse_unmatched_flagged] fails: the unmatched code token 15 is outside every unparsable node *)
+Lemma root_parse_legacy_refuted :
+  exists ts m ch,
+    ts <> [] /\ wf_root ts m = true /\ has_match m = true /\ mr_end m < end_idx ts /\
+    root_parse_legacy ts (GOk m) = Some (POk (Node K_File ch)) /\
+    outside_l ch = map t_id ts.
+Proof.
+  exists ex_toks, ex_mr. eexists. split; [discriminate|]. split; [vm_compute; reflexivity|].
+  split; [reflexivity|]. split; [vm_compute; reflexivity|]. split; vm_compute; reflexivity.
+Qed.
+
+Example ex_root_parse_flagged :
+  exists ch, root_parse ex_toks (GOk ex_mr) = Some (POk (Node K_File ch)) /\
+             outside_l ch = [10; 11; 12; 13; 14; 16; 17] /\ ~ In 15 (outside_l ch).
+Proof. eexists. split; [vm_compute; reflexivity|]. split; [vm_compute; reflexivity|]. vm_compute. intuition discriminate. Qed.
 
 Example ex_unparsable :
   wf_root ex_toks (MR 1 1 None [] []) = true /\
